@@ -1,6 +1,5 @@
-// sim/props/wire_worker.cpp -- netsim/wire worker: C03 (and C02)
-#include "c03.h"
-#include "c02.h"
+// sim/props/dgram_worker.cpp -- netsim/dgram worker: C12
+#include "c12.h"
 #include "../netsim/wraps.h"
 using namespace vs;
 static muscle::CompleteSetupSystem * g_css = NULL;
@@ -8,23 +7,21 @@ static void Warmup()
 {
    g_css = new muscle::CompleteSetupSystem;
    muscle::SetConsoleLogLevel(muscle::MUSCLE_LOG_NONE);
-   // touch the lazily constructed pools/statics the workloads use
-   RunResult r; Plan p = c03::Gen(12345); try {c03::Exec(p, r);} catch(...) {}
-   c02::InstallAllocMeter();
+   // touch the lazily constructed pools/statics the workloads use (both tunnel types, slave gateway, zlib)
+   for (uint64_t s=1; s<=24; s++) {RunResult r; Plan p = c12::Gen(0xC12000+s); try {c12::Exec(p, r);} catch(...) {}}
+   WatchdogDisarm();
    if (g_verbose) muscle::SetConsoleLogLevel(muscle::MUSCLE_LOG_TRACE);
 }
 static void BetweenRuns()
 {
    SimClockReset();
-   SimRandomReset(12345);
    muscle::AbstractObjectRecycler::GlobalFlushAllCachedObjects();
 }
 static const PropDef kProps[] = {
-   {"C03", c03::Gen, c03::Exec, false},
-   {"C02", c02::Gen, c02::Exec, false},
+   {"C12", c12::Gen, c12::Exec, false},
 };
 int main(int argc, char ** argv)
 {
-   WorkerDef d = {"netsim/wire", kProps, (int)(sizeof(kProps)/sizeof(kProps[0])), Warmup, BetweenRuns};
+   WorkerDef d = {"netsim/dgram", kProps, (int)(sizeof(kProps)/sizeof(kProps[0])), Warmup, BetweenRuns};
    return WorkerMain(argc, argv, d);
 }
